@@ -120,8 +120,13 @@ def look (t : HT) (v : Nat) : Option (Nat × Nat) :=
   if e / 65536 ≠ 0 then some (e % 65536, e / 65536)
   else slow t.tree 16 (v / 1024) (e % 65536 - 1) 10
 
+/-- value of a bit list, first bit least significant -/
+def lsbVal : List Nat → Nat
+  | [] => 0
+  | b :: bs => b + 2 * lsbVal bs
+
 /-- the 16-bit peek of a bit list (stream order, zero padded) -/
-def peek16 (bits : List Nat) : Nat := ((bits.take 16).zipIdx.map fun (b, i) => b * 2 ^ i).sum
+def peek16 (bits : List Nat) : Nat := lsbVal (bits.take 16)
 
 /-- `read_symbol` on a bit list: the symbol and the rest; `none` = error (HuffmanError, or
     BitStreamError from `consume` when fewer bits are left than the code word needs) -/
